@@ -257,6 +257,7 @@ def check_taw_def(prog, fv, r):
             r.ok("missing_mandatory reads %s" % nm)
         else:
             r.fail(fv.name, "missing-mandatory:" + nm, "validate_update no longer tests the presence of %s" % nm, fv.loc())
+    check_missing_mandatory_disjuncts(prog, fv, r)
     l_mm = [l for l, n in fv.local_name.items() if n == "missing_mandatory"]
     if l_mm:
         txt = " ".join(show(rend.call_expr(s, 30, bi) if si == "t" else rend.rvalue(s["rv"], 30), 400) + " " + " ".join(show(g, 100) for g, _, _ in flat_guards(fv, bi))
@@ -266,6 +267,56 @@ def check_taw_def(prog, fv, r):
                 r.fail(fv.name, "missing-mandatory-def:" + nm, "missing_mandatory does not consult %s" % nm, fv.loc())
     else:
         r.unanalysable("missing_mandatory local not found", fv.loc())
+
+
+def check_missing_mandatory_disjuncts(prog, fv, r):
+    """missing_mandatory = (reach || mp_reach) && (no ORIGIN || no AS_PATH || legacy reach without NEXT_HOP || MP reach
+    without next hop).  `||` chains are lowered to control flow, so a disjunct takes part exactly when the branch on its
+    value is a (transitive) control dependency of the block that assigns `true`."""
+    l_mm = [l for l, n in fv.local_name.items() if n == "missing_mandatory"]
+    if len(l_mm) != 1:
+        return
+    true_blocks = [bi for bi, si, s in fv.defs().get(l_mm[0], []) if bi in fv.live and si != "t" and s["rv"]["r"] == "use" and (s["rv"]["o"].get("k") or {}).get("v") == 1]
+    if not true_blocks:
+        # single-expression form: fall back to the branches that dominate any definition
+        true_blocks = [bi for bi, si, s in fv.defs().get(l_mm[0], []) if bi in fv.live]
+    cd = fv.control_deps()
+    deps, work = set(), list(true_blocks)
+    while work:
+        b = work.pop()
+        for (bb, l, s_) in cd.get(b, ()):
+            if bb not in deps:
+                deps.add(bb)
+                work.append(bb)
+    brs = branches(fv)
+    found = {"ORIGIN": False, "AS_PATH": False, "legacy NEXT_HOP": False, "MP next hop": False}
+    exprs = [brs[bb].expr for bb in deps if bb in brs]
+    # the last operand of an `||` chain is assigned directly, not branched on
+    rend = Renderer(fv, depth=20)
+    for bi, si, s_ in fv.defs().get(l_mm[0], []):
+        if bi in fv.live and si != "t" and not (s_["rv"]["r"] == "use" and "k" in s_["rv"]["o"]):
+            exprs.append(rend.rvalue(s_["rv"], 20))
+    for e in exprs:
+        vs = set(expr_vars(e))
+        if "mp_reach_missing_nexthop" in vs:
+            found["MP next hop"] = True
+        for x in walk(e):
+            if isinstance(x, tuple) and x and x[0] == "agg" and x[1] == "closure" and x[2] in prog.ix:
+                toks = fn_tokens(prog, x[2], depth=0)
+                if any(re.fullmatch(r"const:.*Attribute::ORIGIN$", t) for t in toks):
+                    found["ORIGIN"] = True
+                if any(re.fullmatch(r"const:.*Attribute::AS_PATH$", t) for t in toks):
+                    found["AS_PATH"] = True
+                if "field:nexthop" in toks and any(t.endswith("Option::<T>::is_none") for t in toks if t.startswith("call:")):
+                    if "reach" in vs and "mp_reach" not in vs:
+                        found["legacy NEXT_HOP"] = True
+    for nm, ok in found.items():
+        if ok:
+            r.ok("missing_mandatory: the %s test decides the value" % nm)
+        else:
+            r.fail(fv.name, "missing-mandatory-disjunct:" + nm.replace(" ", "_"),
+                   "the value of missing_mandatory no longer depends on the %s test: an UPDATE lacking it is classified by its other errors only "
+                   "(a discardable attribute error then lets the route through without it)" % nm, fv.loc(true_blocks[0]))
 
 
 def _path_ret(cfv, conds, rb):
@@ -410,6 +461,26 @@ def check_attr_loop(prog, fv, r3, r4):
         else:
             r3.fail(fv.name, "skip:unclassified", "an attribute is consumed on a path that fits no RFC 7606 class (guards: %s)" % txt[:240], fv.loc(sb))
     r3.floor("attribute skip sites in the UPDATE attribute loop", n, 6)
+    # unrecognised attribute codes are classified by single flag bits: "well-known" is OPTIONAL clear, whatever the rest
+    brs_all = branches(fv)
+    n_masks = 0
+    for bb, br in sorted(brs_all.items()):
+        e = br.expr
+        if not (e[0] == "bin" and e[1] in ("Eq", "Ne") and "flags" in expr_vars(e)):
+            continue
+        if not any(g[0] == "discr" and any(c.endswith("Attribute::canonical_flags") for c in expr_calls(g)) and l == {"None"} for g, l, h in flat_guards(fv, bb, brs_all)):
+            continue
+        for x in walk(e):
+            if isinstance(x, tuple) and x and x[0] == "bin" and x[1] == "BitAnd":
+                m = ceval(x[3]) if ceval(x[3]) is not None else ceval(x[2])
+                n_masks += 1
+                if m in (OPTIONAL, TRANSITIVE):
+                    r3.ok("unknown attribute: flag test under mask 0x%02x @%d" % (m, fv.line(bb)))
+                else:
+                    r3.fail(fv.name, "unknown-attr-flag-mask", "an unrecognised attribute is classified by testing flags under mask %s (line %d): the well-known / optional and transitive classes are "
+                            "decided by the OPTIONAL (0x80) and TRANSITIVE (0x40) bits one at a time — a well-known attribute legitimately carries TRANSITIVE" % ("0x%02x" % m if m is not None else "?", fv.line(bb)), fv.loc(bb))
+    if n_masks < 2:
+        r3.unanalysable("flag tests on unrecognised attributes: found %d (want >= 2)" % n_masks, fv.loc())
     # truncated block: after the loop, push under position != attr_end
     post = [b for b, t in fv.calls(re.compile(r".*Vec::<T, A>::push")) if "AttributeError" in t["f"].get("ga", "") and b not in body]
     trunc = False
